@@ -18,7 +18,9 @@ CLAUSES = (
     'expiry is optional, and a user expression takes precedence; is_complete '
     'evaluates the expression with exactly the completed-map through the '
     'message -> completion-variable table, falling back to "any final output" '
-    'only for an empty expression. Not decided: agreement of builder and '
+    'only for an empty expression. '
+    'The history loader visits every overlapping task_outputs row. '
+    'Not decided: agreement of builder and '
     'evaluator for every output set (boolean semantics of expressions).')
 
 TO = 'task_outputs'
